@@ -122,6 +122,8 @@ def _sign_of(e, signs):
         return (e.value > 0) - (e.value < 0)
     if isinstance(e, ast.Name):
         return signs.get(e.id)
+    if U(e) in signs:
+        return signs[U(e)]      # a whole sub-expression whose sign was tested
     if isinstance(e, ast.UnaryOp) and isinstance(e.op, ast.USub):
         v = _sign_of(e.operand, signs)
         return None if v is None else -v
@@ -217,12 +219,30 @@ def r26_sign_prop(ctx):
         if not sels:
             rep.error("R26", "%s: no '-'/'+' selection found" % f.qual)
             continue
+        from ..flow import path_conds as _pcsr
+        reached = set()
         for node, test, true_is_minus in sels:
             rep.anchor(rule, "sign renderers")
             bad = []
             for h, m in VALID_HM:
                 if h == 0 and m == 0:
                     continue
+                # a selector that sits in a branch (`if hours == 0: ... else:
+                # sign by the hours`) speaks for the values that reach it
+                reaches = True
+                for t_, pol_ in _pcsr(node):
+                    try:
+                        v_ = bool(ctx.folder.fold(
+                            _subst_hm(t_, h, m, f.node), f.module, f.cls,
+                            {}))
+                    except NotConst:
+                        continue
+                    if v_ != pol_:
+                        reaches = False
+                        break
+                if not reaches:
+                    continue
+                reached.add((h, m))
                 try:
                     v = bool(ctx.folder.fold(_subst_hm(test, h, m, f.node),
                                              f.module, f.cls, {}))
@@ -248,6 +268,14 @@ def r26_sign_prop(ctx):
                       "combinations %s under the test `%s` (e.g. -00:30 "
                       "needs the minute component)" % (f.qual, bad, U(test)),
                       props)
+        unreached = [hm for hm in VALID_HM
+                     if hm != (0, 0) and hm not in reached]
+        if unreached:
+            rep.undecided(rule, ctx.fkey(f, None, "all-combinations"),
+                          f.loc(), "%s: no '-'/'+' selection is reached for "
+                          "the (hours, minutes) sign combinations %s" % (
+                              f.qual, unreached),
+                          ("C06", "C08"))
     # ... and the sign of the year: '-' exactly for a negative year (year 0
     # is written +000000)
     for q in ("data.TimePoint.year_sign",):
@@ -453,7 +481,68 @@ def r26_sign_prop(ctx):
     rets = [n for n in walk_no_nested(f.node) if isinstance(n, ast.Return)]
     okd = False
     why = "return shape not recognised"
+    from ..flow import sign_variables as _svars
+    pairs_by_path = None
     if len(rets) == 1 and isinstance(rets[0].value, ast.Tuple) and len(
+            rets[0].value.elts) == 2 and not _svars(f.node):
+        # no sign factor: the components are assigned under tests of the
+        # offset's sign.  Path by path (decision table): each pair is
+        # computed where the sign of what it divides is known
+        from ..dtable import explore as _explore_lo
+        from ..flow import zero_relation as _zr
+        try:
+            pairs_by_path = []
+            for p_ in _explore_lo(f.node.body):
+                if p_.outcome != "return" or not (
+                        isinstance(p_.value, ast.Tuple) and
+                        len(p_.value.elts) == 2):
+                    continue
+                rels = set()
+                for atom, val in p_.decisions.items():
+                    try:
+                        a_ = ast.parse(atom, mode="eval").body
+                    except SyntaxError:
+                        continue
+                    r_ = _zr(a_, bool(val))
+                    if r_ is not None:
+                        rels.add(r_)
+                pairs_by_path.append((p_.value, rels))
+        except AnalysisError:
+            pairs_by_path = None
+    if pairs_by_path:
+        covered, notes = [], []
+        for value, rels in pairs_by_path:
+            used = {U(x) for x in ast.walk(value)
+                    if isinstance(x, ast.expr)}
+            signs = {}
+            for sj, rel in rels:
+                if sj in used:
+                    signs[sj] = -1 if rel in ("<", "<=") else 1
+            hours, minutes = value.elts
+            if not signs:
+                covered.append(False)
+                notes.append("a pair is returned where the sign of the "
+                             "offset is not known")
+                continue
+            ok_h = _sign_safe(hours, signs)
+            ok_m = False
+            if isinstance(minutes, ast.BinOp) and isinstance(
+                    minutes.op, ast.Mod):
+                ok_m = _sign_of(minutes.right, signs) == \
+                    list(signs.values())[0]
+            elif isinstance(minutes, ast.UnaryOp) and isinstance(
+                    minutes.op, ast.USub):
+                ok_m = _sign_safe(minutes.operand, signs)
+            covered.append(bool(ok_h and ok_m))
+            if not ok_h:
+                notes.append("hours `%s` floors a quotient of operands of "
+                             "opposite sign" % U(hours)[:60])
+            if not ok_m:
+                notes.append("minutes `%s` is not a remainder whose modulus "
+                             "has the sign of the offset" % U(minutes)[:60])
+        okd = bool(covered) and all(covered)
+        why = "; ".join(notes) or "each pair is computed under a known sign"
+    elif len(rets) == 1 and isinstance(rets[0].value, ast.Tuple) and len(
             rets[0].value.elts) == 2:
         deps = []
         from ..flow import sign_variables
@@ -614,6 +703,26 @@ def r26_sign_prop(ctx):
                     conds = " and ".join(("" if pol else "not ") + U(t)
                                          for t, pol in path_conds(x, stop=n))
                     skipped.append(conds[:80])
+    # ... and the search ranges over the whole table for every expression:
+    # what the loop iterates is DURATION_REGEXES on every path (a shorter
+    # list chosen by looking at the text skips forms that text can have)
+    from ..flow import expand_values as _ev26
+    for n in walk_no_nested(f.node):
+        if not isinstance(n, ast.For):
+            continue
+        leaves = [v for v, _c in _ev26(f.node, n.iter)]
+        if not any("DURATION_REGEXES" in U(v) for v in leaves):
+            continue
+        part = [U(v)[:40] for v in leaves
+                if not U(v).endswith("DURATION_REGEXES")]
+        rep.check(not part, rule, ctx.fkey(f, None, "whole-table"),
+                  f.loc(n), "the search tries every entry of "
+                  "DURATION_REGEXES for every expression",
+                  "DurationParser.parse iterates %s instead of the whole "
+                  "DURATION_REGEXES table on some path: a designator form "
+                  "the skipped entries would have matched (P1461D, P1000Y "
+                  "- what str() writes for such a duration) is refused" %
+                  part, ("C10",))
     rep.check(not skipped, rule, ctx.fkey(f, None, "match-becomes-duration"),
               f.loc(),
               "after a regex matched, only groups absent from the match are "
